@@ -125,6 +125,9 @@ class AbstractBlock(CborArray):
                 # A decoded block is checked as it was received,
                 # with a zero-valued CRC field (always the last item)
                 pre_crc = cbor2.dumps(rx_items[:-1] + [defn['encode'](0)])
+                # and the CRC item itself is compared as received
+                # (not what BstrField makes of a text string or an array)
+                crc_value = rx_items[-1]
             else:
                 # Encode with a zero-valued CRC field
                 self.fields[self.crc_value_name] = defn['encode'](0)
